@@ -493,6 +493,32 @@ theorem refines_alias_spec_partial (ops : List Op) :
 -- `Spec.AliasSem` and compares all observations (harness: every case of both tiers).
 -- Proved part: `refines_alias_spec_partial` (histories without by-reference operations).
 
+/-! ### `==`, `!=` and `hash()` cohere (both catalogues: they are computed by `eqVals` / `pyHashOf` on current values) -/
+
+/-- `a == b` is true only for objects of related classes with the same serialisation — for a `CBlock` that is
+    header AND transactions, so a block never equals its bare header nor a block with the same header and
+    another `vtx` — and then `hash(a) == hash(b)` (`!=` is `not ==`, `Serializable.__ne__`) -/
+theorem eq_true_ser_hash (ma mb : Bool) (va vb : Val) (h : eqVals ma va mb vb = .ok true) :
+    va.family = vb.family ∧ serVal va = serVal vb ∧ pyHashOf va = pyHashOf vb := by
+  unfold eqVals at h
+  by_cases hf : va.family = vb.family
+  · simp only [hf, ne_eq, not_true_eq_false, if_false] at h
+    refine ⟨hf, ?_⟩
+    have aux : ∀ (r : Bool) (x y : Res Bytes),
+        (if r then (do let b ← y; let a ← x; pure (a == b)) else (do let a ← x; let b ← y; pure (a == b)))
+          = (.ok true : Res Bool) → x = y := by
+      intro r x y hr
+      cases x <;> cases y <;> cases r <;>
+        simp [Bind.bind, Except.bind, Pure.pure, Except.pure] at hr ⊢ <;> first | exact hr | exact hr.symm
+    have key : serVal va = serVal vb := aux _ _ _ h
+    exact ⟨key, by simp only [pyHashOf, key]⟩
+  · simp [hf] at h
+
+/-- a block and its header differ in serialisation whenever the block serialises: `==` is false -/
+example : eqVals false (.block ⟨⟨2, List.replicate 32 0, List.replicate 32 1, 1, 2, 3⟩, []⟩) false
+    (.header ⟨2, List.replicate 32 0, List.replicate 32 1, 1, 2, 3⟩) = .ok false := by
+  rfl
+
 /-! ### the digest of the heap `RawSignatureHash` and `Model.Sighash` (audit 2, Q4) -/
 
 theorem validTx_eq_fromTxOk (t : Tx) :
